@@ -24,7 +24,7 @@ TECHNIQUE = ("bounded exhaustive enumeration of row words (group interleavings, 
              "facets halflife==alpha, grouped==ungrouped, group independence")
 RULE = ("untimed case = one word over rows (key incl. null, value null/non-null, mask bit) run for "
         "alpha in {.25,.5,1}, halflife in {.5,1,1.5,2.5} through ema_grouped, GroupBy.ema (both "
-        "layouts) and the class-level form; timed case = word x every gap sequence over {1,2,5} x "
+        "layouts) and the class-level form; timed case = word x every gap sequence over {1,2,5} (and over {0,1,3}: tied timestamps) x "
         "halflife x time unit x origin (before/at/after the epoch); ungrouped case = null pattern of "
         "one series; non-trivial = a group with >= 2 valid rows or an invalid row after a valid one")
 ASSUMPTIONS = [
@@ -181,9 +181,10 @@ class TimedSpace(Subspace):
     shard = 20
 
     def __init__(self, name, G, lo, hi, units=("ns", "us", "ms", "s"), origins=(-10, 0, 1_600_000_000),
-                 vdtype="f8", seed=0):
+                 vdtype="f8", seed=0, gaps=(1, 2, 5), with_mask=True, nhl=3):
         self.name, self.units, self.origins, self.vdtype, self.seed = name, units, origins, vdtype, seed
-        alpha = row_alphabet(G, 1, [True], C.can_null(vdtype), True)
+        self.gaps, self.nhl = gaps, nhl
+        alpha = row_alphabet(G, 1, [True], C.can_null(vdtype), with_mask)
         self.ws = W.WordSpace(alpha, lo, hi)
         self.warm_key = f"timed-{vdtype}"
 
@@ -192,7 +193,8 @@ class TimedSpace(Subspace):
 
     def case(self, i):
         return dict(w=[[list(r[0])] + list(r[1:]) for r in self.ws.at(i)], units=list(self.units),
-                    origins=list(self.origins), vdtype=self.vdtype, seed=self.seed)
+                    origins=list(self.origins), vdtype=self.vdtype, seed=self.seed,
+                    gaps=list(self.gaps), nhl=self.nhl)
 
     def run(self, case):
         from groupby_lib import GroupBy
@@ -202,7 +204,7 @@ class TimedSpace(Subspace):
         d = gbh.Data(case["w"], ("float",), case["vdtype"], case["seed"])
         n = d.n
         ks = [-1 if g is None else g for g in d.gids]
-        ms = list(d.ms)
+        ms = list(d.ms) if d.ms is not None else [1] * n
         rtol = 1e-6 if d.V.dtype == np.float32 else 1e-11
         grouped_rows = [i for i in range(n) if ks[i] >= 0]
         res.nontrivial = n >= 2
@@ -212,8 +214,8 @@ class TimedSpace(Subspace):
         seams.set(executor=sched.NAMESPACE)
         sched.set_schedule(sched.Schedule())
         MULT = {"ns": 10**9, "us": 10**6, "ms": 10**3, "s": 1}
-        halflives = [("1s", 1.0), (pd.Timedelta(milliseconds=1500), 1.5), ("2500ms", 2.5)]
-        for gaps in itertools.product((1, 2, 5), repeat=max(0, n - 1)):
+        halflives = [(pd.Timedelta(milliseconds=1500), 1.5), ("1s", 1.0), ("2500ms", 2.5)][:case.get("nhl", 3)]
+        for gaps in itertools.product(tuple(case.get("gaps") or (1, 2, 5)), repeat=max(0, n - 1)):
             for origin in case["origins"]:
                 secs = [origin]
                 for g_ in gaps:
@@ -350,6 +352,9 @@ def subspaces(tier, seed):
     sp.append(TimedSpace("timed-f8-A2-n1to3", 2, 1, 3, seed=seed))
     if not q:
         sp.append(TimedSpace("timed-f8-A2-n4", 2, 4, 4, units=("ns", "us"), seed=seed))
+    # ties: rows of different groups (and of one group) sharing a timestamp - panel data
+    sp.append(TimedSpace(f"timed-ties-f8-A0_2-n2to{4 if q else 5}", 2, 2, 4 if q else 5, units=("ns",),
+                         origins=(0,), gaps=(0, 1, 3), with_mask=False, nhl=1, seed=seed))
     sp.append(TimedSpace("timed-i8-n1to3", 2, 1, 3, units=("us", "s"), origins=(0, 1_600_000_000),
                          vdtype="i8", seed=seed))
     sp.append(UngroupedSpace(f"ungrouped-len1to{5 if q else 6}", 1, 5 if q else 6, seed=seed))
